@@ -3,7 +3,7 @@ import json
 import math
 from fractions import Fraction
 
-from props.c07 import run_driver, eval_files, dists_lit, q, ikey
+from props.c07 import run_driver, eval_files, dists_lit, q, ikey, HDR
 
 
 def run(rep, work, tier, seed, only=None):
@@ -25,12 +25,12 @@ def run(rep, work, tier, seed, only=None):
                           '%s%s dir=%s/8 p=%d/16: log_output for error bits %d is %r, log of the probability is %r'
                           % (p['cls'], tuple(p['size']), p['dir'], p['p16'], lb['error_bits'], lb['log'], lb['expected']),
                           {'instance': ikey(p, 'error_probability-log'), 'direction_eighths': p['dir'], 'rate_sixteenths': p['p16'], 'detail': lb})
-    render = lambda p: 'probs_ok %s [%s]' % (dists_lit(p['dists']), '; '.join(q(v) for v in p['vals']))
+    render = lambda p: 'probs_ok_fast %s [%s]' % (dists_lit(p['dists']), '; '.join(q(v) for v in p['vals']))
     small = [p for p in items if len(p['vals']) <= 2000]
     big = [p for p in items if len(p['vals']) > 2000]        # one case per file: a 4^7-element literal is large enough
     okmap = {}
     for grp, per, pre in ((small, 6, 'c18p'), (big, 1, 'c18q')):
-        for p, ok in zip(grp, eval_files(work, pre, grp, per, render)):
+        for p, ok in zip(grp, eval_files(work, pre, grp, per, render, hdr=HDR + 'From PQ Require Import NoiseEval.\n')):
             okmap[id(p)] = ok
     oks = [okmap[id(p)] for p in items]
     for p, ok in zip(items, oks):
